@@ -79,6 +79,10 @@ struct Item {
     /// function's tail expression is a struct literal (or `Self::new`-style path call is NOT accepted) of that type
     #[serde(default)]
     ret_type: Option<String>,
+    /// E12: method calls `RECV.m(ARGS)` with `m` in this list are routed through the prelude wrapper `vx_m(RECV, ARGS)`
+    /// (provided Iterator methods / adapters that vstd cannot specify; the wrapper's body is exactly the std call)
+    #[serde(default)]
+    wrap: Vec<String>,
     /// exact-text replacements (escape hatch, reported as rule M)
     #[serde(default)]
     manual: Vec<(String, String, String)>,
@@ -633,6 +637,19 @@ impl<'a, 'ast> Visit<'ast> for Ctx<'a> {
                 let m = mc.method.to_string();
                 if m == "get_unchecked" || m == "get_unchecked_mut" || m == "unwrap_unchecked" {
                     self.site("unchecked_call");
+                }
+                if self.item.wrap.contains(&m) || self.item.wrap.contains(&format!("&{m}")) {
+                    // E12: RECV.m(ARGS) -> vx_m(RECV, ARGS)   (`&m` in the list: the receiver is auto-referenced, vx_m(&RECV, ARGS))
+                    let amp = if self.item.wrap.contains(&format!("&{m}")) { "&" } else { "" };
+                    let (rs, re) = self.src.range(mc.receiver.span());
+                    let (_, po) = self.src.range(mc.paren_token.span.open());
+                    self.add(rs, rs, format!("vx_{m}({amp}"), "E12 adapter wrapper");
+                    let sep = if mc.args.is_empty() { "" } else { ", " };
+                    self.add(re, po, sep.to_string(), "E12 adapter wrapper");
+                    self.site("wrapped_call");
+                    self.visit_expr(&mc.receiver);
+                    for a in &mc.args { self.visit_expr(a); }
+                    return;
                 }
                 if (m == "expect" && mc.args.len() == 1) || (m == "unwrap" && mc.args.is_empty()) {
                     // E4: Option/Result::{expect, unwrap} are documented panics -> prelude `vexpect()` (diverges on None/Err)
